@@ -91,6 +91,20 @@ CLAIMED = {
             "invariants of all reachable objects (values) are not decided.",
             "typestate (guard-before-mutation) + twin-skeleton agreement + who-writes queries + must-dataflow",
             "DESIGN.md §5 C19", "partial"),
+    "C18": ("other",
+            "Decides the structural part of configuration independence: the SSE2 / SSSE3 kernels (also compiled under "
+            "AVX-512) of find_next_host_delimiter(_special) and has_tabs_or_newline are decoded exactly (all 65536 byte "
+            "pairs per 16-bit lane) and match the scalar path's set and the specification set, with the scan shape "
+            "(stride loop, overlapping tail, reported index) checked; the set of functions whose body depends on the "
+            "instruction set is exactly the decoded one; digit conversions are range-checked in every configuration; the "
+            "AVX-512 IPv4 kernel converts through the shared checked converter; the AVX-512 IPv6 prefilter is pure, "
+            "masked, reject-only and applied identically by both URL types; development-check-only statements are "
+            "effect-free and no statement is release-only; the amalgamated distribution compiles identical bodies. "
+            "Equality of outputs over all inputs, soundness of the IPv6 prefilter's rejections, and absence of firing "
+            "assertions are not decided.",
+            "exact per-lane evaluation of vector kernels from AST facts + cross-configuration differencing of per-function "
+            "facts + must-dataflow of range facts + effect queries",
+            "DESIGN.md §5 C18", "partial"),
     "C17": ("other",
             "All 79 extern \"C\" functions: every dereference of the handle is dominated by its engagement check "
             "(must-dataflow over the CFG), the failed-handle exit returns the documented default, each wrapper calls "
@@ -140,7 +154,7 @@ NOT_APPLICABLE = {
            "no table, ordering, pairing or ownership fact whose breakage is necessary for a violation",
 }
 
-PENDING = {'C02': 'check not built yet in this round (see DESIGN.md §11 build order); not claimed until it is', 'C18': 'check not built yet in this round (see DESIGN.md §11 build order); not claimed until it is', 'C19': 'check not built yet in this round (see DESIGN.md §11 build order); not claimed until it is'}   # id -> reason, for properties whose check is not built yet
+PENDING = {'C02': 'check not built yet in this round (see DESIGN.md §11 build order); not claimed until it is', }   # id -> reason, for properties whose check is not built yet
 
 
 def main():
@@ -166,7 +180,7 @@ def main():
         "hooks": {
             "guard": "ADA_URL_ADA_VERIF",
             "enable": "none needed: the checks analyse /repo's sources as they are (no instrumentation); the guard name is reserved",
-            "baseline_off_cmd": "cmake --build /repo/_build -j16 && ctest --test-dir /repo/_build -j8 --timeout 900",
+            "baseline_off_cmd": "sh /verif/tools/repo_tests.sh",
             "source_commits": [],
             "add_only": True,
         },
